@@ -35,6 +35,12 @@ const (
 	witV30      = "CVSS:3.0/AV:N/AC:L/PR:N/UI:N/S:C/C:H/I:H/A:H/RC:U"
 	witV4Mod    = "CVSS:4.0/AV:N/AC:L/AT:N/PR:N/UI:N/VC:H/VI:H/VA:H/SC:H/SI:H/SA:H/MVC:N/MVI:N/MVA:N/MSC:N/MSI:N/MSA:N"
 	witOSVPanic = "CVSS:3/AV:N/AC:L/PR:N/UI:N/S:U/C:H/I:H/A:H"
+	// fromCVSS3 accepts more than vectors (listed finding): a metric twice
+	// (the last one wins, so the order of the pieces matters), no base metric
+	kOsvLax     = "osv-accepts-non-vectors"
+	witOsvDupA  = "CVSS:3.1/AV:P/AC:L/PR:N/UI:N/S:U/C:H/I:H/A:H/AV:N"
+	witOsvDupB  = "CVSS:3.1/AV:N/AC:L/PR:N/UI:N/S:U/C:H/I:H/A:H/AV:P"
+	witOsvNoBase = "CVSS:3.1/E:X/RL:X/RC:X/CR:X/IR:X/AR:X/MAV:X/MAC:X"
 )
 
 type harness struct {
@@ -609,6 +615,148 @@ func (h *harness) concurrent(workers, iters int) {
 	r.Count("concurrent:rounds")
 }
 
+// ---------------------------------------------------------------- v4 monotonicity, OSV order
+
+// v4Order lists, for the metrics the v4 score depends on, the values from the
+// most to the least severe (specification section 2; X of E / CR / IR / AR is
+// the most severe value's equal and is left out).
+var v4Order = map[string][]string{
+	"AV": {"N", "A", "L", "P"}, "AC": {"L", "H"}, "AT": {"N", "P"}, "PR": {"N", "L", "H"}, "UI": {"N", "P", "A"},
+	"VC": {"H", "L", "N"}, "VI": {"H", "L", "N"}, "VA": {"H", "L", "N"}, "SC": {"H", "L", "N"}, "SI": {"H", "L", "N"}, "SA": {"H", "L", "N"},
+	"E": {"A", "P", "U"}, "CR": {"H", "M", "L"}, "IR": {"H", "M", "L"}, "AR": {"H", "M", "L"},
+}
+var v4OrderNames = []string{"AV", "AC", "AT", "PR", "UI", "VC", "VI", "VA", "SC", "SI", "SA", "E", "CR", "IR", "AR"}
+
+func (h *harness) score4(s string) (int, bool) {
+	k, ok := 0, false
+	hx.Guard(func() string {
+		pv, err := cvss.ParseV4(s)
+		if err != nil {
+			return "err"
+		}
+		_, k, ok = score10(pv.Score())
+		return "ok"
+	})
+	return k, ok
+}
+
+// mono4: a vector that differs from v in one metric, by one step toward the
+// more severe value, never scores lower (checked on the complete space of the
+// metrics the score depends on — 17 006 112 vectors x their neighbours — when
+// this oracle was written: 0 violations on the unchanged code).
+func (h *harness) mono4(v vec) {
+	r := h.r
+	s := str4(v)
+	k, ok := h.score4(s)
+	if !ok {
+		return
+	}
+	for _, n := range v4OrderNames {
+		cur, present := v[n]
+		if !present || cur == "X" {
+			cur = v4Order[n][0] // Not Defined counts as the most severe value
+			continue
+		}
+		idx := -1
+		for i, x := range v4Order[n] {
+			if x == cur {
+				idx = i
+			}
+		}
+		if idx <= 0 {
+			continue
+		}
+		w := vec{}
+		for a, b := range v {
+			w[a] = b
+		}
+		w[n] = v4Order[n][idx-1]
+		t := str4(w)
+		k2, ok2 := h.score4(t)
+		r.Case("mono4 "+s+" "+n, true)
+		if ok2 && k2 < k {
+			h.fail("", fmt.Sprintf("v4: %s:%s -> %s:%s makes the vector more severe, the score drops from %d/10 to %d/10 (other vector %q)", n, cur, n, w[n], k, k2, t), s)
+		}
+	}
+	r.Count("v4:monotonicity-checked")
+}
+
+// randV4score: a vector over the metrics the v4 score depends on (no Modified
+// metrics except, sometimes, MSI:S / MSA:S which the implementation reads).
+func (h *harness) randV4score() vec {
+	v := vec{}
+	for i := 0; i < 11; i++ {
+		v[v4Names[i]] = h.pick(v4Values[i])
+	}
+	if h.rnd.Chance(2, 3) {
+		v["E"] = h.pick([]string{"A", "P", "U", "X"})
+	}
+	for _, n := range []string{"CR", "IR", "AR"} {
+		if h.rnd.Chance(1, 2) {
+			v[n] = h.pick([]string{"H", "M", "L", "X"})
+		}
+	}
+	switch h.rnd.Intn(8) {
+	case 0:
+		v["MSI"] = "S"
+	case 1:
+		v["MSA"] = "S"
+	}
+	return v
+}
+
+// osvOrder: the OSV severity of a valid v3 vector does not depend on the
+// order in which the string lists its metrics.
+func (h *harness) osvOrder(minor int, v vec) {
+	canon := str3(minor, v)
+	shuf := h.shuffled3(minor, v)
+	sev := func(s string) string {
+		return hx.Guard(func() string {
+			x, err := osv.FromCVSS3ForVerif(h.ctx, s)
+			if err != nil {
+				return "err"
+			}
+			return fmt.Sprint(int(x))
+		})
+	}
+	a, b := sev(canon), sev(shuf)
+	h.r.Case("osv-order "+shuf, true)
+	if a != b {
+		h.fail("", fmt.Sprintf("osv fromCVSS3 gives %s for %q and %s for the same metrics in another order", a, canon, b), shuf)
+	}
+	h.r.Count("osv3:order-checked")
+}
+
+// osvLax replays the listed finding: fromCVSS3 derives a severity from a
+// string that is not a vector.
+func (h *harness) osvLax() {
+	sev := func(s string) string {
+		return hx.Guard(func() string {
+			x, err := osv.FromCVSS3ForVerif(h.ctx, s)
+			if err != nil {
+				return "err"
+			}
+			return fmt.Sprint(int(x))
+		})
+	}
+	_, errA := cvss.ParseV3(witOsvDupA)
+	_, errB := cvss.ParseV3(witOsvDupB)
+	_, errC := cvss.ParseV3(witOsvNoBase)
+	a, b, c := sev(witOsvDupA), sev(witOsvDupB), sev(witOsvNoBase)
+	if errA != nil && errB != nil && a != "err" && b != "err" && a != b {
+		h.r.KnownSeen(kOsvLax, fmt.Sprintf("input=%q severity=%s; the same pieces, first and last exchanged, %q severity=%s; ParseV3 rejects both", witOsvDupA, a, witOsvDupB, b))
+		h.r.Count("known:" + kOsvLax)
+	}
+	if errC != nil && c != "err" {
+		h.r.KnownSeen(kOsvLax, fmt.Sprintf("input=%q (no base metric) severity=%s; ParseV3 rejects it", witOsvNoBase, c))
+	}
+	h.osv3(witOsvDupA, true)
+	h.osv3(witOsvDupB, true)
+	h.osv3(witOsvNoBase, true)
+	h.v3(witOsvDupA, true)
+	h.v3(witOsvNoBase, true)
+}
+
 // ---------------------------------------------------------------- rendering / generation
 
 func str2(v vec) string {
@@ -922,6 +1070,9 @@ func Run(cfg hx.Config) error {
 	h.v3("CVSS:3.1/AV:N/AC:L/PR:N/UI:N/S:U/C:H/I:H/A:H/MAV:X", true)
 	h.v3("CVSS:3.0/AV:N/AC:L/PR:L/UI:N/S:C/C:H/I:H/A:H/MS:X/MC:X", true)
 	h.v3("CVSS:3.1/AV:N/AC:L/PR:N/UI:N/S:U/C:H/I:H/A:H/E:F/RC:U/CR:H", true)
+	h.osvLax()
+	h.osv2("E:ND/RL:ND/RC:ND/CDP:ND/TD:ND/CR:ND", true) // six non-base pieces: accepted by fromCVSS2, rated Low
+	h.osv2("A:C/I:C/C:C/Au:N/AC:L/AV:N", true)          // any order
 	for _, s := range corpusLines(cfg) {
 		h.all(s, true)
 	}
@@ -977,7 +1128,77 @@ func Run(cfg hx.Config) error {
 			h.osv3(s, true)
 		}
 	}
+	// 3b. environmental metrics systematically: every combination of the
+	// requirement letters (incl. X) over every effective Modified vector
+	// (thorough: complete, 2 x 2592 x 64; quick: sampled), the Modified metrics
+	// spelled out over an unrelated Base vector, sometimes left to the Base value
+	envCase := func(minor int, eff vec, cr, ir, ar string) {
+		v := vec{}
+		for i := 0; i < 8; i++ {
+			n := v3Names[i]
+			switch h.rnd.Intn(3) {
+			case 0: // the Base value is the effective one, Modified absent
+				v[n] = eff[n]
+			case 1: // ... or explicitly Not Defined
+				v[n] = eff[n]
+				v["M"+n] = "X"
+			default: // another Base value, overridden
+				v[n] = h.pick(v3Vals[i])
+				v["M"+n] = eff[n]
+			}
+		}
+		v["CR"], v["IR"], v["AR"] = cr, ir, ar
+		if h.rnd.Chance(1, 3) {
+			for i := 8; i < 11; i++ {
+				v[v3Names[i]] = h.pick(v3Vals[i])
+			}
+		}
+		s := str3(minor, v)
+		if h.rnd.Chance(1, 5) {
+			s = h.shuffled3(minor, v)
+		}
+		r.Count("v3:env-effective-space")
+		h.v3(s, true)
+	}
+	if cfg.Thorough() {
+		for minor := 0; minor <= 1; minor++ {
+			enum(v3Names[:8], v3Vals[:8], func(eff vec) bool {
+				e := vec{}
+				for a, b := range eff {
+					e[a] = b
+				}
+				for _, cr := range v3Vals[11] {
+					for _, ir := range v3Vals[12] {
+						for _, ar := range v3Vals[13] {
+							envCase(minor, e, cr, ir, ar)
+						}
+					}
+				}
+				return !r.Stop()
+			})
+		}
+		r.Count("sweep:v3-environmental-effective-space-complete")
+	} else {
+		for i := 0; i < 6000 && !r.Stop(); i++ {
+			eff := vec{}
+			for k := 0; k < 8; k++ {
+				eff[v3Names[k]] = h.pick(v3Vals[k])
+			}
+			envCase(h.rnd.Intn(2), eff, h.pick(v3Vals[11]), h.pick(v3Vals[12]), h.pick(v3Vals[13]))
+		}
+	}
+	// 3c. OSV: the order of the metrics does not matter
+	for i := 0; i < cfg.N(1500, 40000) && !r.Stop(); i++ {
+		h.osvOrder(h.rnd.Intn(2), h.randV3())
+	}
 	// 4. v4
+	for i := 0; i < cfg.N(4000, 250000) && !r.Stop(); i++ {
+		v := h.randV4score()
+		h.mono4(v)
+		if i%4 == 0 {
+			h.v4(str4(v), true)
+		}
+	}
 	if cfg.Thorough() {
 		enum(v4Names[:11], v4Values[:11], func(v vec) bool { h.v4(str4(v), true); return !r.Stop() })
 		r.Count("sweep:v4-base-complete")
@@ -1006,6 +1227,21 @@ func Run(cfg hx.Config) error {
 	}
 	for i := 0; i < cfg.N(1500, 30000) && !r.Stop(); i++ {
 		h.all(h.randomString(), false)
+	}
+	// 5b. the enricher: CVE ids in free text, what Enrich forwards, which feed items are selected
+	for i := 0; i < cfg.N(2500, 50000) && !r.Stop(); i++ {
+		t, planted := h.cveText()
+		h.cve(t, planted)
+	}
+	for i := 0; i < cfg.N(500, 10000) && !r.Stop(); i++ {
+		m, _ := h.mutate(cvePool[h.rnd.Intn(len(cvePool))] + " " + cvePool[h.rnd.Intn(len(cvePool))])
+		h.cve(m, nil)
+	}
+	for i := 0; i < cfg.N(800, 16000) && !r.Stop(); i++ {
+		h.randEnrich()
+	}
+	for i := 0; i < cfg.N(400, 8000) && !r.Stop(); i++ {
+		h.randFeed()
 	}
 	// 6. multi-step printing over the sampled vectors
 	h.retained(cfg.N(3000, 60000))
